@@ -1,10 +1,19 @@
 """C11: the two places outside next_cut on which the locality / key theorems rely, read from the AST.
 
-* `gclmulchunker.__call__`: finality passed to `next_cut` is "the look-ahead piece is None" (`feed` in Chunker.lean decides
-  finality exactly like that), and the consumed prefix is removed from the buffer (`del buffer[:pos]` or an equivalent slice
-  assignment);
-* `RepositoryProps.chunkify`: the per-repository `chunker_params` reach the adapter whenever the repository is encrypted.
-Anything else than the recognised shapes yields `false`; the bridge lemmas in Lemmas/ChunkerLocal.lean then stop compiling.
+* `gclmulchunker.__call__` (`adapterFinalIsLookaheadNone`): at EVERY call of `<chunker>.next_cut(buffer, final)` that the
+  abstract interpreter of `10_handover.py` (class `Engine`, loaded by path: same values, same inlining of helper methods / nested
+  functions / helper generators, same treatment of loops and conditions) reaches, on every path,
+    - `final` has the value "the most recently requested piece is the end marker of the piece iterator" — symbolically
+      (`x is None` / `x == None` / `x is SENTINEL` for `x = next(it, None | SENTINEL)`, through `bool()`, `not … is not`,
+      conditional expressions, locals, parameters of helpers) or as a constant on a path on which exactly that is known
+      (`except StopIteration: final = True`, the body / the end of `for … in it`), and
+    - the piece requested before that one was appended WHOLE to a reassembly buffer (an empty piece counts as appended).
+  `feed` in Chunker.lean decides finality exactly like that.  `not x`, the finality of an older piece, a constant, a
+  block-level flag used while a block is appended in parts … give `false`; anything the interpreter cannot follow gives `false`.
+* `RepositoryProps.chunkify` (`chunkifyPassesKey`): on every path through the method (properties such as `encrypted` are
+  inlined, so `self.cipher is None` and `not self.encrypted` are the same fact) the result is `self.chunker(<the pieces>, …)`
+  with `params` = `self.private['chunker_params']` where the repository is encrypted and None / absent where it is not.
+Anything else yields `false`; the bridge lemmas in Lemmas/ChunkerLocal.lean then stop compiling.
 
 * block sizes (`harness/impl/c11_blocks.py`, loaded by path so that extractor and generators read the same thing):
   `sizeConstants` = every integer constant (>= 2) of adapters.py / repository.py / src/adapters.cpp — the values the harness
@@ -25,33 +34,107 @@ def _blocks_helper():
     return mod
 
 
+def _engine_module():
+    f = Path(__file__).resolve().parent / '10_handover.py'
+    spec = importlib.util.spec_from_file_location('handover_engine_for_chunksync', f)
+    mod = importlib.util.module_from_spec(spec)
+    spec.loader.exec_module(mod)
+    return mod
+
+
+def final_is_lookahead_none(ctx, H):
+    """(verdict, why)"""
+    eng, err, _ = H.analyse_adapter(ctx)
+    if eng is None:
+        return False, err
+    if err is not None:
+        return False, f'not recognised: {err}'
+    bad = list(dict.fromkeys(w for ok, w in eng.cuts if not ok))
+    if bad:
+        return False, '; '.join(bad[:3])
+    if not eng.cuts:
+        return False, 'no call of next_cut is reached'
+    if eng.pulls == 0:
+        return False, 'the piece iterator is never advanced'
+    return True, ''
+
+
+PIECES = ('sym', '<pieces>')
+KEY = ('sym', "self.private['chunker_params']")
+
+
+def chunkify_passes_key(ctx, H, module, cls, fn):
+    """(verdict, why)"""
+    names = [p.arg for p in fn.args.posonlyargs + fn.args.args]
+    if len(names) < 2:
+        return False, 'chunkify(self, <pieces>) expected'
+    eng = H.Engine(ctx, module, fp_prefix='repository')
+    try:
+        outs = eng.run_function(fn, cls, {names[0]: H.SELF, names[1]: PIECES})
+        results = [(s, v) for kind, s, v in outs if kind == 'return']
+        fell = [s for kind, s, v in outs if kind == 'next']
+        gen = H.is_generator(fn)
+        if gen:
+            if any(v != H.const(None) for _, v in results):
+                return False, 'a generator that also returns a value'
+            results = list(eng.delegated)
+            for s in [s for _, s, _ in outs]:
+                if not any(d.atoms == s.atoms or set(d.atoms) <= set(s.atoms) for d, _ in eng.delegated):
+                    return False, 'a path through chunkify delegates to no chunker call'
+        elif fell:
+            return False, 'a path through chunkify returns nothing'
+        if not results:
+            return False, 'no result'
+        probe = ast.parse('self_.encrypted', mode='eval').body
+        probe.value = ast.Name(id=names[0], ctx=ast.Load())
+        ast.fix_missing_locations(probe)
+        fr = eng.frames[()]
+        for s, v in results:
+            if v[0] != 'callres' or v[1] not in ('self.chunker', 'self.chunker.__call__'):
+                return False, f'a path returns something else than self.chunker(…): {v[0]}'
+            args, kwargs = list(v[2]), dict(v[3])
+            pieces = args[0] if args else kwargs.get('chunk_iterator')
+            if pieces != PIECES:
+                return False, 'the pieces handed to chunkify are not what is handed to the chunker'
+            params = args[1] if len(args) > 1 else kwargs.get('params', H.const(None))
+            enc = [v2 for _, v2 in eng.ev(probe, s, fr, True)]
+            if len(enc) != 1 or enc[0][0] != 'const':
+                # `encrypted` = "there is a cipher" (the property may have been renamed / inlined)
+                plain = s.atom(('isnone', 'self.cipher'))
+                if plain is None:
+                    return False, '`params` does not depend on whether the repository is encrypted'
+                enc = [H.const(not plain)]
+            if enc[0][1]:
+                # (an EMPTY key replaced by None is the same thing to every chunker adapter: `if not params`)
+                if params != KEY and not (params == H.const(None) and s.atom(('truthy', KEY[1])) is False):
+                    return False, "encrypted repository: `params` is not self.private['chunker_params']"
+            elif params != H.const(None):
+                return False, 'unencrypted repository: `params` is not None'
+        return True, ''
+    except H.Unrecognised as e:
+        return False, f'not recognised: {e}'
+    except RecursionError:
+        return False, 'analysis recursion limit'
+
+
 def section(ctx):
-    asrc = (ctx.REPO / 'replicat' / 'utils' / 'adapters.py').read_text()
-    call = ctx.find_func(ast.parse(asrc), 'gclmulchunker', '__call__')
-    final_ok = False
-    final_expr = ''
-    if call is not None:
-        for node in ast.walk(call):
-            if isinstance(node, ast.Call) and ctx.unparse(node.func).endswith('.next_cut') and len(node.args) == 2:
-                final_expr = ctx.unparse(node.args[1])
-                inner = node.args[1]
-                if isinstance(inner, ast.Call) and ctx.unparse(inner.func) == 'bool' and len(inner.args) == 1:
-                    inner = inner.args[0]
-                final_ok = ctx.unparse(inner) in ('next_chunk is None', '(next_chunk is None)')
+    H = _engine_module()
+    final_ok, why = final_is_lookahead_none(ctx, H)
     ctx.emit(f'def adapterFinalIsLookaheadNone : Bool := {"true" if final_ok else "false"}')
     if not final_ok:
-        ctx.notes['adapter.final'] = f'finality expression not recognised: {final_expr!r}'
+        ctx.notes['adapter.final'] = f'finality of next_cut not recognised as "the look-ahead piece is the end marker": {why}'
     rsrc = (ctx.REPO / 'replicat' / 'repository.py').read_text()
-    ck = ctx.find_func(ast.parse(rsrc), 'RepositoryProps', 'chunkify')
+    rmod = ast.parse(rsrc)
+    rcls = next((n for n in ast.walk(rmod) if isinstance(n, ast.ClassDef) and n.name == 'RepositoryProps'), None)
+    ck = next((n for n in rcls.body if isinstance(n, ast.FunctionDef) and n.name == 'chunkify'), None) if rcls is not None else None
     ctx.fp('repository.RepositoryProps.chunkify', ck)
     key_ok = False
     if ck is not None:
-        assigns = {ctx.unparse(n.targets[0]): ctx.unparse(n.value) for n in ast.walk(ck) if isinstance(n, ast.Assign) and len(n.targets) == 1}
-        rets = [ctx.unparse(n.value) for n in ast.walk(ck) if isinstance(n, ast.Return) and n.value is not None]
-        key_ok = (assigns.get('params') == "self.private['chunker_params'] if self.encrypted else None"
-                  and rets == ['self.chunker(it, params=params)'])
+        key_ok, why = chunkify_passes_key(ctx, H, rmod, rcls, ck)
         if not key_ok:
-            ctx.notes['chunkify'] = f'shape not recognised: {assigns} / {rets}'
+            ctx.notes['chunkify'] = f'shape not recognised: {why}'
+    else:
+        ctx.notes['chunkify'] = 'RepositoryProps.chunkify not found'
     ctx.emit(f'def chunkifyPassesKey : Bool := {"true" if key_ok else "false"}')
     # --- block sizes
     blocks = _blocks_helper()
